@@ -2,6 +2,7 @@ import ColaVerif.Lemmas.CGBridge
 import ColaVerif.Lemmas.CGExample
 import ColaVerif.Lemmas.CGInputs
 import ColaVerif.Lemmas.CGExample3
+import ColaVerif.Lemmas.CGResidual
 
 /-!
 # C12 — CG returns the Krylov-optimal iterate and honours its stopping contract (property theorems)
@@ -33,6 +34,18 @@ Round 2 (end of the file): `GuardsOffN` is DERIVED from the inputs.
   `C12_optimal_single` (one right-hand side, every `tol ≥ 1e-40`, no constants), `C12_optimal_any`
   (every `tol ≥ 0`, every batch, NO hypothesis: the output is the optimal iterate of some `k' ≤ k`, and
   `k' < k` only for a column already converged below `1e-40`), `C12_tiny_scale_regression`.
+* Round 3: the link between the residual the stopping test looks at and the TRUE residual needs no guard
+  hypothesis at all.  `take_cg_step` updates `x` and `r` with the same `α`, so `r̂ = b̂ - A x̂` is an invariant
+  of the guarded recurrence: `C12_residual_recurrence` (every column), `C12_residual_true_any` (`b_j ≠ 0`,
+  nothing else: `r̂_i = (b - A x_i)/‖b‖` at every step `i`), `C12_tolEff_true`, and `C12_stop_true_residual`
+  (= `C12_stop` on true residuals: on exit before the cap `‖b - A x‖ ≤ tol ‖b - A x0‖ + tol ‖b‖` for every
+  non-zero column, any `A`, `P`, batch, `tol`).  Under the input-level hypotheses of the optimality family
+  the residual is moreover the TEXTBOOK residual `b - A x_i` of the textbook iterate:
+  `C12_residual_true_mask` (`MaskOffN`, every `i ≤ k`), `C12_residual_true_single` (one right-hand side,
+  `tol ≥ 1e-40`: the textbook stopping contract, inputs only), `C12_residual_true_final` (no hypothesis
+  beyond HPD: `∃ k' ≤ k`).  `C12_mask_of_guards`: `GuardsOffN → MaskOffN`; the round-1 statement
+  `C12_residual_true` (hypothesis `GuardsOffN`) is kept as a corollary of `C12_residual_true_mask`.
+  `C12_residual_true_witness`: all of it on `tridiag(-1, 2, -1)`, `k = 3`.
 -/
 
 open CG
@@ -113,7 +126,9 @@ theorem C12_output (A : Matrix (Fin n) (Fin n) 𝕜) (P : Option (Matrix (Fin n)
 /-- **stops as soon as, not before** (exact arithmetic): with `t` the number of steps made,
 `t = max_iters` or every column's residual is `≤ tol * ‖r̂0‖ + tol`; and before each of the `t`
 steps some column's residual was `> tol * ‖r̂0‖ + tol` (residuals of the normalised system, i.e.
-relative to `‖b‖`; `C12_residual_true` identifies them with the true residual). -/
+relative to `‖b‖`; `C12_residual_true_any` identifies them with the true residual `(b - A x_i)/‖b‖` for
+every non-zero column with no further hypothesis, and `C12_stop_true_residual` is this theorem restated
+on true residuals of the inputs). -/
 theorem C12_stop (A : Matrix (Fin n) (Fin n) 𝕜) (P : Option (Matrix (Fin n) (Fin n) 𝕜))
     (B X0 : Fin m → EuclideanSpace 𝕜 (Fin n)) (maxIters : ℕ) (tol : ℝ) :
     let t := (runBatchedCG (matArr A) (colsArr B) (colsArr X0) maxIters ((tol : ℝ) : 𝕜)
@@ -122,8 +137,79 @@ theorem C12_stop (A : Matrix (Fin n) (Fin n) 𝕜) (P : Option (Matrix (Fin n) (
     ∀ i < t, ∃ j : Fin m, tolEffR A P B X0 tol j < ‖(colState A P B X0 j i).r‖ := by
   rw [run_k]; exact run_stop_exact A P B X0 maxIters tol
 
+/-- **the recurrence residual is the residual of the normalised system — every column, every step, NO
+hypothesis** (any `A`, any preconditioner, zero columns included, whatever the guards did):
+`take_cg_step` updates `x += α p` and `r -= α A p` with the same `α`, so `r̂_i = b̂ - A x̂_i` with
+`b̂ = b / scale`, `scale = where(‖b‖ == 0, 1, ‖b‖)` (`normDen`), `x̂_i` the loop's iterate. -/
+theorem C12_residual_recurrence (A : Matrix (Fin n) (Fin n) 𝕜)
+    (P : Option (Matrix (Fin n) (Fin n) 𝕜)) (B X0 : Fin m → EuclideanSpace 𝕜 (Fin n)) (j : Fin m)
+    (i : ℕ) :
+    (colState A P B X0 j i).r =
+      (normDen (B j))⁻¹ • B j - Matrix.toEuclideanLin A (colState A P B X0 j i).x :=
+  colState_r_rec A P B X0 j i
+
+/-- **the residual the stopping test looks at IS the true residual, unconditionally**: for a column with
+`b_j ≠ 0` — NO hypothesis on `A`, on the preconditioner, on guards, mask or tolerances — after every
+number `i` of steps `r̂_i = (b - A x_i) / ‖b‖`, hence `‖r̂_i‖ ‖b‖ = ‖b - A x_i‖`, where
+`x_i = gRun … i` is the vector the code returns for this column when the loop stops after `i` steps
+(`xOut` is `gRun` at the number of steps made; `gRun … i` is the one-column run with `max_iters = i`,
+`tol = 0`, third conjunct).  A zero column with `x0 ≠ 0` is the only case in which the test looks at
+something else (`C12_residual_recurrence`: the residual of `A x = 0` from `x0`, while `0` is returned). -/
+theorem C12_residual_true_any (A : Matrix (Fin n) (Fin n) 𝕜) (P : Option (Matrix (Fin n) (Fin n) 𝕜))
+    (B X0 : Fin m → EuclideanSpace 𝕜 (Fin n)) (j : Fin m) (hb : B j ≠ 0) (i : ℕ) :
+    (colState A P B X0 j i).r =
+      (((‖B j‖ : ℝ) : 𝕜))⁻¹ • (B j - Matrix.toEuclideanLin A
+        (gRun (Matrix.toEuclideanLin A) (precLin P) smallR (B j) (X0 j) i)) ∧
+    ‖(colState A P B X0 j i).r‖ * ‖B j‖ = ‖B j - Matrix.toEuclideanLin A
+        (gRun (Matrix.toEuclideanLin A) (precLin P) smallR (B j) (X0 j) i)‖ ∧
+    gRun (Matrix.toEuclideanLin A) (precLin P) smallR (B j) (X0 j) i =
+      xOut A P (oneCol (B j)) (oneCol (X0 j)) i (((0 : ℝ)) : 𝕜) 0 :=
+  ⟨colState_r_true A P B X0 j hb i, colState_r_norm A P B X0 j hb i,
+    (xOut_single A P (B j) (X0 j) i).symm⟩
+
+/-- the round-1 hypothesis implies the input-level one: `GuardsOffN` (three thresholds on the computed
+quantities of the normalised system) contains `1e-40 ≤ ‖r̂_i‖`, which by homogeneity of textbook CG is
+`1e-40 ‖b‖ ≤ ‖b - A x_i‖`, i.e. `MaskOffN` (abstract inner product space, no hypothesis on `A`, `M`). -/
+theorem C12_mask_of_guards {E : Type*} [NormedAddCommGroup E] [InnerProductSpace 𝕜 E]
+    {A M : E →ₗ[𝕜] E} {ε : ℝ} {b x0 : E} (hb : b ≠ 0) {k : ℕ}
+    (hg : GuardsOffN A M ε b x0 k) : MaskOffN A M ε b x0 k :=
+  maskOffN_of_guardsOffN hb hg
+
+/-- **true-residual link under the input-level hypothesis of `C12_optimal_mask`** (any batch, column `j`,
+any `k`): `A` Hermitian positive definite, preconditioner `None` or Hermitian positive definite,
+`b_j ≠ 0`, and the column has `not_converged` below `1e-40` relative to `‖b_j‖` before step `k`
+(`MaskOffN`: `1e-40 ‖b‖ ≤ ‖b - A x_i‖` for the textbook iterates, `i < k`).  Then at EVERY step `i ≤ k`
+the vector the code holds is the textbook iterate, and the residual the stopping test looks at is its
+true residual `(b - A x_i)/‖b‖`, which is also the textbook recurrence residual `r_i/‖b‖`.
+(The second conjunct alone needs none of the hypotheses: `C12_residual_true_any`.) -/
+theorem C12_residual_true_mask {A : Matrix (Fin n) (Fin n) 𝕜} (hA : A.PosDef)
+    {P : Option (Matrix (Fin n) (Fin n) 𝕜)} (hP : PrecPosDef P)
+    (B X0 : Fin m → EuclideanSpace 𝕜 (Fin n)) (j : Fin m) (k : ℕ) (hb : B j ≠ 0)
+    (not_converged : MaskOffN (Matrix.toEuclideanLin A) (precLin P) smallR (B j) (X0 j) k) :
+    ∀ i ≤ k,
+      gRun (Matrix.toEuclideanLin A) (precLin P) smallR (B j) (X0 j) i =
+        (cgSeq (Matrix.toEuclideanLin A) (precLin P) (B j) (X0 j) i).x ∧
+      (colState A P B X0 j i).r =
+        (((‖B j‖ : ℝ) : 𝕜))⁻¹ • (B j - Matrix.toEuclideanLin A
+          (gRun (Matrix.toEuclideanLin A) (precLin P) smallR (B j) (X0 j) i)) ∧
+      (colState A P B X0 j i).r =
+        (((‖B j‖ : ℝ) : 𝕜))⁻¹ • (cgSeq (Matrix.toEuclideanLin A) (precLin P) (B j) (X0 j) i).r ∧
+      (cgSeq (Matrix.toEuclideanLin A) (precLin P) (B j) (X0 j) i).r =
+        B j - Matrix.toEuclideanLin A
+          (cgSeq (Matrix.toEuclideanLin A) (precLin P) (B j) (X0 j) i).x := by
+  intro i hi
+  have hAs := isSymmetric_toEuclideanLin hA
+  have hMs := isSymmetric_precLin hP
+  have pA := posDefOp_toEuclideanLin hA
+  have pM := posDefOp_precLin hP
+  obtain ⟨h1, h2, h3⟩ := gState_r_true_mask hAs hMs pA pM smallR_pos hb not_converged hi
+  exact ⟨h1, h2, h3, cgSeq_res_of_mask hAs hMs pA pM smallR_pos hb (not_converged.mono hi)⟩
+
 /-- the residual the stopping test looks at is the true residual of the returned vector divided by
-`‖b‖`, as long as no guard is active: `r̂_k = (b - A x_k) / ‖b‖` -/
+`‖b‖`: `r̂_k = (b - A x_k) / ‖b‖` — the ROUND-1 STATEMENT (hypothesis `hg : GuardsOffN`, a condition on
+computed quantities), kept unchanged because other families cite it.  It is now a corollary:
+`GuardsOffN → MaskOffN` (`C12_mask_of_guards`) and `C12_residual_true_mask` at `i = k`; the identity
+itself holds with `hb` alone (`C12_residual_true_any`), so `hA`, `hP`, `hg` are not needed for it. -/
 theorem C12_residual_true {A : Matrix (Fin n) (Fin n) 𝕜} (hA : A.PosDef)
     {P : Option (Matrix (Fin n) (Fin n) 𝕜)} (hP : PrecPosDef P)
     (B X0 : Fin m → EuclideanSpace 𝕜 (Fin n)) (j : Fin m) (k : ℕ) (hb : B j ≠ 0)
@@ -131,8 +217,7 @@ theorem C12_residual_true {A : Matrix (Fin n) (Fin n) 𝕜} (hA : A.PosDef)
     (colState A P B X0 j k).r =
       (((‖B j‖ : ℝ) : 𝕜))⁻¹ • (B j - Matrix.toEuclideanLin A
         (gRun (Matrix.toEuclideanLin A) (precLin P) smallR (B j) (X0 j) k)) :=
-  gState_r_true (isSymmetric_toEuclideanLin hA) (isSymmetric_precLin hP)
-    (posDefOp_toEuclideanLin hA) (posDefOp_precLin hP) smallR_pos hb hg
+  (C12_residual_true_mask hA hP B X0 j k hb (C12_mask_of_guards hb hg) k le_rfl).2.1
 
 /-- **zero right-hand side ⇒ exactly zero** (any `x0`, any other columns, any guards) -/
 theorem C12_zero (A : Matrix (Fin n) (Fin n) 𝕜) (P : Option (Matrix (Fin n) (Fin n) 𝕜))
@@ -299,7 +384,7 @@ theorem C12_dirs_eq_krylov {E : Type*} [NormedAddCommGroup E] [InnerProductSpace
     ∀ {xs : E}, A xs = b → ∀ y, y - x0 ∈ krylov (M ∘ₗ A) (M (b - A x0)) k →
       energy A xs (cgSeq A M b x0 k).x ≤ energy A xs y :=
   ⟨dirs_eq_krylov_of_resid hA hM pA pM k hr,
-   fun hxs y hy => cg_optimal_krylov hA hM pA pM hxs hr hy⟩
+   fun hxs _ hy => cg_optimal_krylov hA hM pA pM hxs hr hy⟩
 
 /-- **Krylov optimality with the guard hypothesis replaced by ONE condition on the textbook
 residuals** (any batch, column `j`): for `i < k` (the steps made) the relative residual
@@ -551,6 +636,172 @@ theorem C12_tiny_scale_regression :
   refine ⟨exAt_posDef, exb3_ne, ex3_tol.r, exxt_solves, ?_, exAt_out, exAt_optimal⟩
   rw [run_k]; exact exAt_steps
 
+/-! ## round 3: the stopping contract on the TRUE residual
+
+`C12_stop` speaks about the recurrence residual `r̂` of the normalised system.  By
+`C12_residual_true_any` that IS the true residual `(b - A x)/‖b‖` of the vector the code holds — an
+invariant of `take_cg_step` in exact arithmetic that no guard can break — so the stopping contract can be
+stated on the inputs and the output alone. -/
+
+/-- the effective tolerance of a non-zero column in terms of the inputs:
+`(tol ‖r̂0‖ + tol) ‖b‖ = tol ‖b - A x0‖ + tol ‖b‖` -/
+theorem C12_tolEff_true (A : Matrix (Fin n) (Fin n) 𝕜) (P : Option (Matrix (Fin n) (Fin n) 𝕜))
+    (B X0 : Fin m → EuclideanSpace 𝕜 (Fin n)) (tol : ℝ) (j : Fin m) (hb : B j ≠ 0) :
+    tolEffR A P B X0 tol j * ‖B j‖ =
+      tol * ‖B j - Matrix.toEuclideanLin A (X0 j)‖ + tol * ‖B j‖ :=
+  tolEffR_true A P B X0 tol j hb
+
+/-- **stops as soon as, not before — on the TRUE residual** (exact arithmetic; ANY `A`, preconditioner,
+batch, `x0`, `max_iters`, real `tol`; no positive-definiteness, no guard or mask hypothesis).  With `t` the
+number of steps made: `t = max_iters`, or EVERY non-zero column of the returned block satisfies
+`‖b - A x‖ ≤ tol ‖b - A x0‖ + tol ‖b‖` (a column frozen by the `has_converged` mask included: the exit
+test looks at all columns; zero columns return `0` by `C12_zero`); and before each of the `t` steps some
+column `j` was strictly above its effective tolerance — for a non-zero column that is
+`tol ‖b - A x0‖ + tol ‖b‖ < ‖b - A x_i‖`, `x_i = gRun … i` the vector the code holds after `i` steps
+(`C12_residual_true_any`: the one-column run with `max_iters = i`, `tol = 0`).  A zero column with
+`x0 ≠ 0` can also keep the loop running; for it only the first conjunct under `∃ j` is available
+(`C12_residual_recurrence`). -/
+theorem C12_stop_true_residual (A : Matrix (Fin n) (Fin n) 𝕜)
+    (P : Option (Matrix (Fin n) (Fin n) 𝕜)) (B X0 : Fin m → EuclideanSpace 𝕜 (Fin n))
+    (maxIters : ℕ) (tol : ℝ) :
+    let t := (runBatchedCG (matArr A) (colsArr B) (colsArr X0) maxIters ((tol : ℝ) : 𝕜)
+      (P.map matArr)).k
+    (t = maxIters ∨ ∀ j : Fin m, B j ≠ 0 →
+      ‖B j - Matrix.toEuclideanLin A (xOut A P B X0 maxIters ((tol : ℝ) : 𝕜) j)‖ ≤
+        tol * ‖B j - Matrix.toEuclideanLin A (X0 j)‖ + tol * ‖B j‖) ∧
+    ∀ i < t, ∃ j : Fin m, tolEffR A P B X0 tol j < ‖(colState A P B X0 j i).r‖ ∧
+      (B j ≠ 0 → tol * ‖B j - Matrix.toEuclideanLin A (X0 j)‖ + tol * ‖B j‖ <
+        ‖B j - Matrix.toEuclideanLin A
+          (gRun (Matrix.toEuclideanLin A) (precLin P) smallR (B j) (X0 j) i)‖) := by
+  rw [run_k]; exact run_stop_true A P B X0 maxIters tol
+
+/-- **one right-hand side, every `tol ≥ 1e-40`, inputs only: the textbook stopping contract** (same
+hypotheses as `C12_optimal_single`).  With `k` the number of steps made and `x_i` the textbook
+preconditioned-CG iterates of the ORIGINAL system: at every step `i ≤ k` the residual the test looks at is
+`(b - A x_i)/‖b‖`; the returned vector is `x_k`; `k = max_iters` or `‖b - A x_k‖ ≤ tol ‖b - A x0‖ + tol ‖b‖`;
+and `tol ‖b - A x0‖ + tol ‖b‖ < ‖b - A x_i‖` for every `i < k` (it did not stop before). -/
+theorem C12_residual_true_single {A : Matrix (Fin n) (Fin n) 𝕜} (hA : A.PosDef)
+    {P : Option (Matrix (Fin n) (Fin n) 𝕜)} (hP : PrecPosDef P)
+    (B X0 : Fin 1 → EuclideanSpace 𝕜 (Fin n)) (hb : B 0 ≠ 0) (maxIters : ℕ) {tol : ℝ}
+    (tol_ge : smallR ≤ tol) :
+    let k := (runBatchedCG (matArr A) (colsArr B) (colsArr X0) maxIters ((tol : ℝ) : 𝕜)
+      (P.map matArr)).k
+    let xk := fun i => (cgSeq (Matrix.toEuclideanLin A) (precLin P) (B 0) (X0 0) i).x
+    (∀ i ≤ k, (colState A P B X0 0 i).r =
+      (((‖B 0‖ : ℝ) : 𝕜))⁻¹ • (B 0 - Matrix.toEuclideanLin A (xk i))) ∧
+    xOut A P B X0 maxIters ((tol : ℝ) : 𝕜) 0 = xk k ∧
+    (k = maxIters ∨ ‖B 0 - Matrix.toEuclideanLin A (xk k)‖ ≤
+      tol * ‖B 0 - Matrix.toEuclideanLin A (X0 0)‖ + tol * ‖B 0‖) ∧
+    ∀ i < k, tol * ‖B 0 - Matrix.toEuclideanLin A (X0 0)‖ + tol * ‖B 0‖ <
+      ‖B 0 - Matrix.toEuclideanLin A (xk i)‖ := by
+  intro k xk
+  have hk : k = runSteps (matArr A) (P.map matArr) (colsArr B) (colsArr X0) maxIters
+      ((tol : ℝ) : 𝕜) := run_k _ _ _ _ _ _
+  have hg : MaskOffN (Matrix.toEuclideanLin A) (precLin P) smallR (B 0) (X0 0) k := by
+    rw [hk]; exact maskOffN_single hA hP B X0 hb maxIters tol_ge
+  have hall := C12_residual_true_mask hA hP B X0 0 k hb hg
+  have hx : xOut A P B X0 maxIters ((tol : ℝ) : 𝕜) 0 = xk k := by
+    have := (hall k le_rfl).1
+    rw [hk] at this
+    rw [hk]; exact this
+  obtain ⟨s1, s2⟩ := C12_stop_true_residual A P B X0 maxIters tol
+  refine ⟨fun i hi => ?_, hx, ?_, ?_⟩
+  · obtain ⟨h1, h2, -, -⟩ := hall i hi
+    rw [h2, h1]
+  · rcases s1 with h | h
+    · exact Or.inl h
+    · right; rw [← hx]; exact h 0 hb
+  · intro i hi
+    obtain ⟨j, -, hj⟩ := s2 i hi
+    have hj0 : j = 0 := Subsingleton.elim _ _
+    subst hj0
+    have := hj hb
+    rw [(hall i hi.le).1] at this
+    exact this
+
+/-- **every `tol` (also `0`), every batch — no hypothesis beyond the property's premise** (the residual
+counterpart of `C12_optimal_any`).  At exit (`k` steps) the residual the test looked at is the true residual
+of the RETURNED column, `r̂_k = (b - A x)/‖b‖`; and there is `k' ≤ k` such that the returned column is the
+textbook iterate `x_{k'}` and `r̂_k` is its textbook residual `r_{k'}/‖b‖`, with `k' = k` or `‖r̂_k‖ < 1e-40`
+(the `has_converged` mask froze the column at `k'`; its residual is then below every `tol_eff ≥ 1e-40`). -/
+theorem C12_residual_true_final {A : Matrix (Fin n) (Fin n) 𝕜} (hA : A.PosDef)
+    {P : Option (Matrix (Fin n) (Fin n) 𝕜)} (hP : PrecPosDef P)
+    (B X0 : Fin m → EuclideanSpace 𝕜 (Fin n)) (maxIters : ℕ) (tol : 𝕜) (j : Fin m)
+    (hb : B j ≠ 0) :
+    let k := (runBatchedCG (matArr A) (colsArr B) (colsArr X0) maxIters tol (P.map matArr)).k
+    (colState A P B X0 j k).r =
+      (((‖B j‖ : ℝ) : 𝕜))⁻¹ • (B j - Matrix.toEuclideanLin A (xOut A P B X0 maxIters tol j)) ∧
+    ∃ k', k' ≤ k ∧ (k' = k ∨ ‖(colState A P B X0 j k).r‖ < smallR) ∧
+      xOut A P B X0 maxIters tol j =
+        (cgSeq (Matrix.toEuclideanLin A) (precLin P) (B j) (X0 j) k').x ∧
+      (colState A P B X0 j k).r =
+        (((‖B j‖ : ℝ) : 𝕜))⁻¹ •
+          (cgSeq (Matrix.toEuclideanLin A) (precLin P) (B j) (X0 j) k').r := by
+  intro k
+  have hk : k = runSteps (matArr A) (P.map matArr) (colsArr B) (colsArr X0) maxIters tol :=
+    run_k _ _ _ _ _ _
+  have hbpos : 0 < ‖B j‖ := norm_pos_iff.mpr hb
+  have htrue : (colState A P B X0 j k).r =
+      (((‖B j‖ : ℝ) : 𝕜))⁻¹ •
+        (B j - Matrix.toEuclideanLin A (xOut A P B X0 maxIters tol j)) := by
+    rw [hk]; exact colState_r_true A P B X0 j hb _
+  refine ⟨htrue, ?_⟩
+  obtain ⟨k', hk', hmask, hor, hx⟩ := xOut_final hA hP B X0 maxIters tol j hb
+  have hres := cgSeq_res_of_mask (isSymmetric_toEuclideanLin hA) (isSymmetric_precLin hP)
+    (posDefOp_toEuclideanLin hA) (posDefOp_precLin hP) smallR_pos hb hmask
+  have hr : (colState A P B X0 j k).r = (((‖B j‖ : ℝ) : 𝕜))⁻¹ •
+      (cgSeq (Matrix.toEuclideanLin A) (precLin P) (B j) (X0 j) k').r := by
+    rw [htrue, hx, ← hres]
+  refine ⟨k', by rw [hk]; exact hk', ?_, hx, hr⟩
+  rcases hor with h | h
+  · left; rw [hk]; exact h
+  · right
+    rw [hr, norm_smul, norm_inv, RCLike.norm_ofReal, abs_of_pos hbpos, inv_mul_lt_iff₀ hbpos,
+      mul_comm]
+    exact h
+
+/-- **witness for the round-3 hypothesis bundles** on the non-diagonal 3 × 3 system of
+`C12_witness_three_steps` (`A = tridiag(-1, 2, -1)`, `b = e₀`, `x0 = 0`, no preconditioner,
+`max_iters = 5`, `tol = 1/10`; exact rationals).  All hypotheses of `C12_residual_true_mask` (with
+`k = 3`, the number of steps the loop makes), of `C12_residual_true_single` and of
+`C12_residual_true_final` hold; the residuals the stopping test sees after `0, 1, 2, 3` steps are
+`e₀, ½ e₁, ⅓ e₂, 0`, each of them the true residual `b - A x_i` (`‖b‖ = 1`); the threshold
+`tol ‖b - A x0‖ + tol ‖b‖` is `1/5` (below `1, 1/2, 1/3`: no stop before step 3), and the returned vector has
+true residual `0`. -/
+theorem C12_residual_true_witness :
+    exA3.PosDef ∧ PrecPosDef (none : Option (Matrix (Fin 3) (Fin 3) ℝ)) ∧ oneCol exb3 0 ≠ 0 ∧
+    smallR ≤ (1 / 10 : ℝ) ∧
+    (runBatchedCG (matArr exA3) (colsArr (oneCol exb3)) (colsArr (oneCol exz3)) 5
+      (((1 / 10 : ℝ) : ℝ) : ℝ) ((none : Option (Matrix (Fin 3) (Fin 3) ℝ)).map matArr)).k = 3 ∧
+    MaskOffN (Matrix.toEuclideanLin exA3) (precLin none) smallR (oneCol exb3 0) (oneCol exz3 0) 3 ∧
+    (colState exA3 none (oneCol exb3) (oneCol exz3) 0 0).r = !₂[1, 0, 0] ∧
+    (colState exA3 none (oneCol exb3) (oneCol exz3) 0 1).r = !₂[0, 1 / 2, 0] ∧
+    (colState exA3 none (oneCol exb3) (oneCol exz3) 0 2).r = !₂[0, 0, 1 / 3] ∧
+    (colState exA3 none (oneCol exb3) (oneCol exz3) 0 3).r = !₂[0, 0, 0] ∧
+    (∀ i, (colState exA3 none (oneCol exb3) (oneCol exz3) 0 i).r =
+      oneCol exb3 0 - Matrix.toEuclideanLin exA3 (gRun (Matrix.toEuclideanLin exA3) (precLin none)
+        smallR (oneCol exb3 0) (oneCol exz3 0) i)) ∧
+    (1 / 10 : ℝ) * ‖oneCol exb3 0 - Matrix.toEuclideanLin exA3 (oneCol exz3 0)‖ +
+      1 / 10 * ‖oneCol exb3 0‖ = 1 / 5 ∧
+    ‖oneCol exb3 0 - Matrix.toEuclideanLin exA3
+      (xOut exA3 none (oneCol exb3) (oneCol exz3) 5 (((1 / 10 : ℝ) : ℝ) : ℝ) 0)‖ = 0 := by
+  have hk : (runBatchedCG (matArr exA3) (colsArr (oneCol exb3)) (colsArr (oneCol exz3)) 5
+      (RCLike.ofReal (1 / 10 : ℝ)) ((none : Option (Matrix (Fin 3) (Fin 3) ℝ)).map matArr)).k = 3 := by
+    rw [run_k]; exact ex3_steps
+  refine ⟨exA3_posDef, ex3_noprec, exb3_ne, ex3_tol_ge, hk, ex3_mask, ?_, ?_, ?_, ?_,
+    fun i => ex3_colState_true, ex3_tolEff_true, ?_⟩
+  · rw [ex3_colState_r (by norm_num), exS0]
+  · rw [ex3_colState_r (by norm_num), exS1]
+  · rw [ex3_colState_r (by norm_num), exS2]
+  · rw [ex3_colState_r le_rfl, exS3.2]
+  · have hx : xOut exA3 none (oneCol exb3) (oneCol exz3) 5 (RCLike.ofReal (1 / 10 : ℝ)) 0 =
+        gRun (Matrix.toEuclideanLin exA3) (precLin none) smallR (oneCol exb3 0) (oneCol exz3 0)
+          3 := by
+      unfold xOut; rw [ex3_steps]
+    rw [show (((1 / 10 : ℝ) : ℝ) : ℝ) = RCLike.ofReal (1 / 10 : ℝ) from rfl, hx,
+      ← ex3_colState_true, ex3_colState_r le_rfl, exS3.2, norm3]
+    norm_num
+
 end exact
 
 #print axioms C12_cap
@@ -578,3 +829,12 @@ end exact
 #print axioms C12_optimal_single
 #print axioms C12_optimal_any
 #print axioms C12_tiny_scale_regression
+#print axioms C12_residual_recurrence
+#print axioms C12_residual_true_any
+#print axioms C12_mask_of_guards
+#print axioms C12_residual_true_mask
+#print axioms C12_tolEff_true
+#print axioms C12_stop_true_residual
+#print axioms C12_residual_true_single
+#print axioms C12_residual_true_final
+#print axioms C12_residual_true_witness
